@@ -6,6 +6,7 @@ import time
 import fixedint
 
 from architecture_simulator.simulation.riscv_simulation import RiscvSimulation
+from architecture_simulator.isa.toy.toy_instructions import ToyInstruction
 from architecture_simulator.simulation.toy_simulation import ToySimulation
 from architecture_simulator.util.fixedint_12 import UInt12
 from architecture_simulator.util.integer_representations import get_n_bit_representations
@@ -131,15 +132,19 @@ def table_history_shard(shard):
     p = Partial()
     if arch.startswith("riscv"):
         addrs = (BASE, BASE + 5, BASE + 6, (1 << 32) - 1) if arch == "riscv" else (BASE, BASE + 5, BASE + 64, BASE + 129)
-        ops = [("w", a, v) for a in addrs for v in (0, 0x9C)] + [("load", "addi x1, x0, 1\n", {}), ("load", ".data\nq: .byte 7\n", {BASE: 7}), ("table",)]
+        ops = ([("w", a, v) for a in addrs for v in (0, 0x9C)] + [("load", "addi x1, x0, 1\n", {}), ("load", ".data\nq: .byte 7\n", {BASE: 7}), ("table",)]
+               + [("r", addrs[0], 4), ("r", addrs[1], 1), ("r", BASE + 32, 4)])  # reads, also of cells nobody wrote: a read is not a write
     else:
         addrs = (0, 1, 2000, 4095)
-        ops = [("w", a, v) for a in addrs for v in (0, 0x9C31)] + [("load", "", {}), ("load", "INC\n.data\nq: .word 7\n", {0: 0x9000, 4095: 7}), ("table",)]
+        ops = ([("w", a, v) for a in addrs for v in (0, 0x9C31)] + [("load", "", {}), ("load", "INC\n.data\nq: .word 7\n", {0: 0x9000, 4095: 7}), ("table",)]
+               + [("r", addrs[1], 2), ("r", 77, 2)])
     import itertools as it
     for d in range(1, depth + 1):
         for hist in it.product(range(len(ops)), repeat=d):
             if ops[hist[-1]][0] != "table":
                 continue  # the oracle looks at the table: histories are distinguished by where they end
+            if any(ops[oi][0] == "r" for oi in hist):
+                p.counters["table-after-a-read"] += 1
             if arch == "riscv":
                 sim = RiscvSimulation()
             elif arch.startswith("riscv"):
@@ -163,6 +168,12 @@ def table_history_shard(shard):
                     sim.load_program(op[1])
                     flat = dict(op[2])
                     written = {}
+                elif op[0] == "r":
+                    m = sim.state.memory
+                    keys0 = set(rv.backing_memory(sim).memory_file) if arch == "riscv-wt-1" else None
+                    (m.read_word if op[2] == 4 else m.read_byte if op[2] == 1 else m.read_halfword)(op[1])
+                    if keys0 is not None and set(rv.backing_memory(sim).memory_file) != keys0 and bad is None:
+                        bad = f"a read at {op[1]:#x} through the write-through cache changed which cells the backing store holds"
                 else:
                     if arch.startswith("riscv"):
                         exp = []
@@ -233,6 +244,14 @@ def toy_shard(shard):
             st.program_counter = UInt12(v)
             got = sim.get_register_representations()["pc"]
             d = bad_reps(got, v, 12)
+        elif what == "ir":
+            # the instruction register shows the loaded instruction as its 16-bit word (opcodes 13..15 decode to NOP)
+            ins = ToyInstruction.from_integer(v)
+            st.loaded_instruction = ins
+            got = sim.get_register_representations()["ir"]
+            d = bad_reps(got, int(ins), 16)
+            if d is None and v >> 12 <= 12 and int(ins) != v:
+                d = f"decodes and re-encodes to {int(ins):#06x}"
         else:
             # the 65 536 values spread over the 4096 cells (cell = v mod 4096), one pass per 4096 values
             cell = v % 4096
@@ -287,8 +306,8 @@ def run(ctx):
                 "single-bit and run-of-ones pattern with the same shifts; other widths on boundaries; compared with an independent reference formatter "
                 "and parsed back. Memory table: every subset of 12 byte addresses (3 words) written in ascending / descending / interleaved order incl. "
                 "zero-valued bytes, at the bottom and at the top of the data range: exactly the aligned words containing a written byte, ascending, true "
-                "addresses, little-endian values. Register table: every register x boundary values. TOY: every 16-bit accu value, every 12-bit pc value, "
-                "every 16-bit value in a memory cell. Table histories: every interleaving up to depth 4 (5) of byte writes (incl. value 0), resets through "
+                "addresses, little-endian values. Register table: every register x boundary values. TOY: every 16-bit accu value, every 12-bit pc value, every 16-bit word in the instruction register, "
+                "every 16-bit value in a memory cell. Table histories: every interleaving up to depth 4 (5) of byte writes (incl. value 0), reads (also of cells nobody wrote), resets through "
                 "load_program (with and without a data segment) and table calls, ending in a table call; the same with a one-set write-back / write-through data cache over four conflicting addresses, where the table must list the words the BACKING store holds at that moment (also while the cache holds newer data). Non-trivial = negative / over-wide / non-zero inputs, populations of more than one byte.")
     t0 = time.time()
     # in-range negative, over-wide positive, and negative AND over-wide aliases of every value
@@ -312,14 +331,14 @@ def run(ctx):
     ctx.space("memory-table", part, t0, populations=4096, orders=3)
     ctx.require("zero-valued-written-byte")
     t0 = time.time()
-    part = pmap(table_history_shard, [("riscv", 4 if ctx.quick else 6), ("toy", 4 if ctx.quick else 6)]
+    part = pmap(table_history_shard, [("riscv", 4 if ctx.quick else 5), ("toy", 4 if ctx.quick else 5)]
                 + [(a, 4 if ctx.quick else 5) for a in ("riscv-wb-1", "riscv-wb-2", "riscv-wt-1")])
-    ctx.space("table-histories", part, t0, operations=11, depth=4 if ctx.quick else 6)
-    ctx.require("table-looked-at-before-a-reset", "table-while-cache-holds-newer-data")
+    ctx.space("table-histories", part, t0, operations=14, depth=4 if ctx.quick else 5)
+    ctx.require("table-looked-at-before-a-reset", "table-while-cache-holds-newer-data", "table-after-a-read")
     t0 = time.time()
     part = pmap(register_shard, [0])
     ctx.space("register-table", part, t0)
     t0 = time.time()
-    shards = [("accu", lo, lo + 4096) for lo in range(0, 65536, 4096)] + [("pc", 0, 4096)] + [("mem", lo, lo + 4096) for lo in range(0, 65536, 4096)]
+    shards = [("accu", lo, lo + 4096) for lo in range(0, 65536, 4096)] + [("pc", 0, 4096)] + [("ir", lo, lo + 4096) for lo in range(0, 65536, 4096)] + [("mem", lo, lo + 4096) for lo in range(0, 65536, 4096)]
     part = pmap(toy_shard, shards)
     ctx.space("toy-registers-and-memory-table", part, t0)
